@@ -304,9 +304,11 @@ func (r *Redirect) parseAndClearFlashMessages() {
 		return
 	}
 
-	_, err := r.c.flashMessages.UnmarshalMsg(cookieValue)
-	if err != nil {
-		return
+	rest, err := r.c.flashMessages.UnmarshalMsg(cookieValue)
+	if err != nil || len(rest) != 0 {
+		// Not a well-formed encoding: no messages
+		clear(r.c.flashMessages)
+		r.c.flashMessages = r.c.flashMessages[:0]
 	}
 }
 
